@@ -5,6 +5,7 @@
   figure captions): `GetOutputNodes` is modelled in Distill.Model.Render and proved to apply
   the same visibility filter.
 -/
+import Distill.Props.RenderProps
 import Distill.Proofs.Convert
 import Distill.Model.Render
 import Distill.Gen.Funcs
